@@ -152,11 +152,24 @@ func runVerify(w *World, opt verifyOpts) int {
 	// (transitively): the contracts this property's proofs were checked against
 	deps := map[string]bool{}
 	if thorough && !opt.all {
+		// functions the property owns entirely; those it owns only for some obligation kinds (fileprops P:kinds)
+		// are re-proved in full like any other dependency when an entirely owned function calls them
 		have := map[string]bool{}
+		inList := map[string]bool{}
+		var work []string
 		for _, k := range fnames {
-			have[k] = true
+			inList[k] = true
+			full := false
+			for _, q := range P.Contracts[k].fullPropSet() {
+				if q == opt.prop {
+					full = true
+				}
+			}
+			if full {
+				have[k] = true
+				work = append(work, k)
+			}
 		}
-		work := append([]string(nil), fnames...)
 		for len(work) > 0 {
 			k := work[0]
 			work = work[1:]
@@ -186,7 +199,10 @@ func runVerify(w *World, opt verifyOpts) int {
 						}
 						have[ck] = true
 						deps[ck] = true
-						fnames = append(fnames, ck)
+						if !inList[ck] {
+							inList[ck] = true
+							fnames = append(fnames, ck)
+						}
 						work = append(work, ck)
 					}
 				}
